@@ -82,6 +82,32 @@ def law_programs(rnd, n):
     return out
 
 
+def container_contracts():
+    """get / contains / insert / push / pop / first / last / rest on containers they are handed: numerically equal keys
+    of different kinds name one entry, and - get, contains, first, last, rest, len being pure - the container is
+    what it was afterwards (each program looks at it again after every call)"""
+    from ..past import vfloat, vbyte, map_, asg
+    out = []
+    pairs = [("int/float", I(1), lit(vfloat(1.0))), ("float/int", lit(vfloat(65.0)), I(65)), ("zero/negzero", lit(vfloat(0.0)), lit(vfloat("nzero"))),
+             ("int/int", I(7), I(7)), ("arr/arr-float", arr(I(1), I(2)), arr(lit(vfloat(1.0)), I(2))), ("str/str", lit(vstr("k")), lit(vstr("k"))),
+             ("big-int/float", I(1 << 20), lit(vfloat(float(1 << 20))))]
+    for tag, k1, k2 in pairs:
+        for others in (0, 3, 40):
+            pre = [OBS_DECL, let("m", map_())] + [expr(call("insert", ident("m"), I(1000 + i), I(i))) for i in range(others)]
+            prog = pre + [obs(call("insert", ident("m"), k1, I(10))), obs(call("get", ident("m"), k2)), obs(call("contains", ident("m"), k2)),
+                          obs(call("insert", ident("m"), k2, I(11))), obs(call("len", ident("m"))), obs(call("get", ident("m"), k1))]
+            out.append(("contract map-keys %s others=%d" % (tag, others), prog))
+    for n in (1, 2, 3, 6):
+        elems = [I(10 + i) for i in range(n)]
+        for b in ("first", "last", "rest", "len", "sort", "join", "str", "contains", "get"):
+            args = [ident("a")] + ([I(11)] if b == "contains" else [I(0)] if b == "get" else [])
+            mk = (lambda: arr(*[lit({"k": "char", "v": 97 + i}) for i in range(n)])) if b == "join" else (lambda: arr(*elems))
+            prog = [OBS_DECL, let("a", mk()), let("alias", ident("a")), obs(call(b, *args)), obs(ident("a")), obs(call("len", ident("alias"))),
+                    obs(call(b, *args)), obs(call("last", ident("a")))]
+            out.append(("contract pure-on-array %s n=%d" % (b, n), prog))
+    return out
+
+
 def run(rep, tier, seed):
     core.build_harness()
     cases, gres = progs.generate("GenCalls", cfg="GenCalls" if tier == "quick" else "GenCalls_thorough", timeout=900)
@@ -94,6 +120,9 @@ def run(rep, tier, seed):
     n = 10000000
     for tag, prog in law_programs(rnd, 800 if tier == "quick" else 8000):
         items.append({"id": n, "prog": prog, "b": tag, "ar": 0, "kinds": "", "tags": []})
+        n += 1
+    for tag, prog in container_contracts():
+        items.append({"id": n, "prog": prog, "b": " ".join(tag.split(" ")[:2]), "ar": 0, "kinds": tag.split(" ", 2)[2], "tags": []})
         n += 1
     bad, verdicts = progs.run_and_validate(rep, items, chk=("bname",))
     rep.cov["distinct_nontrivial"] = len({(it["b"], it["ar"], tuple(it["tags"])) for it in items if it["ar"] or not it["tags"]})
